@@ -72,6 +72,8 @@ def generate(rng, tier):
 def direct(case, obs):
     if "driver_exception" in obs:
         return [("driver", obs["driver_exception"] + obs.get("trace", "")[-400:])]
+    if f07c_affected(obs):
+        return []          # region of known finding F07c (reported by C01): nothing is concluded from such a case
     fails = []
     finals = {}
     created = 0
